@@ -157,6 +157,7 @@ class FieldMappingDetectionItem(Contract):
                 same = isinstance(cp, SObj) and cp.fields.get("field") == fld and cp.fields.get("negated") is True and isinstance(cp.fields.get("value_linking"), ClassRef) and cp.fields["value_linking"].info.name == "ConditionAND" \
                     and len(cp.fields.get("value", [])) == 2 and all(a is b for a, b in zip(cp.fields["value"], inp["vals"]))
                 c.require(same, f"the copy for {fld} differs from the original only in its field: values, value linking (all) and negation are kept")
+                c.require(cp.fields.get("auto_modifiers") is False, f"the copy for {fld} is created with auto_modifiers off: its values are ALREADY modified (applying base64 / wide / windash ... a second time would change them)")
             sets = [ops.getattr_(I, cp, "applied_processing_items", None) for cp in r.fields["detection_items"]] + [it.fields["applied_processing_items"]]
             c.require(all(a is not b for i, a in enumerate(sets) for b in sets[i + 1:]), "the copies do not share their record of applied processing items with each other or with the original (C13: what a later item marks on one copy is not recorded for its siblings)", kind="FRAME")
 
